@@ -48,6 +48,7 @@ type TreeScript struct {
 	Prop          string  `json:"prop"`
 	CountJudge    bool    `json:"count_judge,omitempty"`    // C16: tasks use Insert/Delete/lookups/GetChangeCount only and the counts are judged
 	Reopen        bool    `json:"reopen,omitempty"`         // C16 judged saves: the tasks work on a trie object opened on the prepared state; saves go to copies of that state, some with deletes
+	LossyWrites   bool    `json:"lossy_writes,omitempty"`   // C16 runs on a store that lost nodes: the tasks also insert and delete; values are not judged then
 	SaveJudge     bool    `json:"save_judge,omitempty"`     // C16: tasks use Insert/Delete/lookups/saves only; every save goes to a store of its own and is judged
 	ScribblePaths bool    `json:"scribble_paths,omitempty"` // with Scribble: also the path slice passed to Insert is overwritten after the call
 	Scribble      bool    `json:"scribble,omitempty"`       // the harness edits every value a lookup returned, after judging it
